@@ -119,7 +119,9 @@ def model_bin(F, op, a, b):
 
 def canon(cfg, x):
     """library result -> ('ok', model value) if it is a canonical element of cfg.cls,
-    else a descriptive non-canonical outcome"""
+    else a descriptive non-canonical outcome.  For the optimized family the element's own
+    `sgn0` (a cached property that results may inherit from their operands) must be the RFC 9380
+    sgn0 of the stored coefficients."""
     if type(x) is not cfg.cls:
         return ("wrong-type", type(x).__name__)
     try:
@@ -128,11 +130,19 @@ def canon(cfg, x):
         return ("malformed", type(e).__name__)
     if not all(isinstance(c, int) and 0 <= c < cfg.p for c in raw):
         return ("not-reduced", raw)
-    if cfg.mc is None:
-        return ("ok", raw[0])
-    if len(raw) != len(cfg.mc):
+    if cfg.mc is not None and len(raw) != len(cfg.mc):
         return ("malformed", len(raw))
-    return ("ok", tuple(raw))
+    val = raw[0] if cfg.mc is None else tuple(raw)
+    if cfg.family == "opt":
+        try:
+            s = x.sgn0
+        except AttributeError:
+            s = None
+        except Exception as e:  # noqa: BLE001
+            return ("sgn0-raises", type(e).__name__)
+        if s is not None and s != sgn0_rfc(cfg, val):
+            return ("stale-or-wrong-sgn0-on-result", [val, s])
+    return ("ok", val)
 
 
 def run_op(cfg, op, x, y=None):
